@@ -70,7 +70,7 @@ def run(ctx):
         ctx.constants["MC " + name] = consts
         ctx.mc("net/MCStorageClientState", mc_cfg(**consts), name="MC storage client state (%s)" % name, timeout=3000)
 
-    plan = ([("direct", 0, 30, 24), ("prod", 0, 30, 24), ("direct", 1, 8, 24), ("prod", 1, 6, 24)] if ctx.quick else
+    plan = ([("direct", 0, 36, 25), ("prod", 0, 36, 25), ("direct", 1, 10, 25), ("prod", 1, 8, 25)] if ctx.quick else
             [("direct", 0, 600, 40), ("prod", 0, 600, 40), ("direct", 1, 60, 30), ("prod", 1, 60, 30)])
     alltraces = ctx.impl("harness/storclient_driver.py", ["--plan", json.dumps(plan)])
     shown = set()
